@@ -4,3 +4,4 @@ import r_bin  # noqa: F401
 import r_c01  # noqa: F401
 import r_c07  # noqa: F401
 import r_c09  # noqa: F401
+import r_c11  # noqa: F401
